@@ -179,7 +179,8 @@ static const char* trapName(Trap t) {
 static char hostlog[1 << 16]; static size_t hostlen; static int hostn;
 static void* insts[16]; static int ninsts;
 /* the most recent instance living at p (storage may be reused after an instance was freed) */
-static int instIndex(void* p) { int k; for (k = ninsts - 1; k >= 0; k--) if (insts[k] == p) return k + 1; return 0; }
+static int childPending;
+static int instIndex(void* p) { int k; for (k = ninsts - 1; k >= 0; k--) if (insts[k] == p) return k + 1; return childPending ? ninsts + 1 : 0; }
 static void pbytes(char* buf, size_t* len, const void* p, int n) {
   int k; const unsigned char* b = (const unsigned char*)p;
   *len += (size_t)sprintf(buf + *len, "[");
@@ -288,6 +289,7 @@ def gen_harness(items, prefix):
         o.append("  static %sInstance I[8]; static %sInstance* P[8]; static int memOf[8]; int ni = 0; (void)ni; (void)memOf; nmems = 0; ntables = 0; ngcells = 0; ninsts = 0; memset(tables, 0, sizeof tables); memset(mems, 0, sizeof mems);" % (mod, mod))
         exports = {e["name"]: e for e in m.get("exports", [])}
         memexp = [e["name"] for e in m.get("exports", []) if e["kind"] == "memory"]
+        inst_binds = []
         for k, op in enumerate(it["script"], start=1):
             o.append("  /* op %d: %s */" % (k, op["op"]))
             o.append('  opBegin("%s", %d);' % (iid, k))
@@ -303,6 +305,7 @@ def gen_harness(items, prefix):
                 o.append('  fprintf(out, ",\\"status\\":\\"done\\"");')
             elif op["op"] == "instantiate":
                 b = op["binds"]
+                inst_binds.append(b)
                 o.append("  %s_bmem = %d; %s_btab = %d;" % (mod, b["mem"], mod, b["table"]))
                 for j, a in enumerate(b["globals"]):
                     o.append("  %s_bglob[%d] = %d;" % (mod, j, a))
@@ -339,6 +342,31 @@ def gen_harness(items, prefix):
                     o.append("    %s;" % call)
                     o.append('    fprintf(out, ",\\"status\\":\\"returned\\",\\"res\\":[]");')
                 o.append('  } else fprintf(out, ",\\"status\\":\\"trapped\\",\\"trap\\":\\"%s\\"", trapName(trapCode));')
+            elif op["op"] == "child":
+                # <module>NewChild through the instance's own common.newChild pointer, as wasi thread-spawn calls it;
+                # the resolver answers as it did for the parent
+                b = inst_binds[op["inst"] - 1]
+                o.append("  %s_bmem = %d; %s_btab = %d;" % (mod, b["mem"], mod, b["table"]))
+                for j, a in enumerate(b["globals"]):
+                    o.append("  %s_bglob[%d] = %d;" % (mod, j, a))
+                inst_binds.append(b)
+                # the start function of the child runs inside newChild, before the pointer is known: host calls made
+                # from it are attributed by childPending (the instance being created)
+                o.append("  memOf[ni] = -1; childPending = 1;")
+                o.append("  if (setjmp(jb) == 0) { P[ni] = (%sInstance*)P[%d]->common.newChild((struct wasmModuleInstance*)P[%d]); fprintf(out, \",\\\"status\\\":\\\"%s\\\"\"); }" % (
+                    mod, op["inst"] - 1, op["inst"] - 1, "returned" if m.get("start", -1) not in (None, -1) else "done"))
+                o.append('  else { P[ni] = NULL; fprintf(out, ",\\"status\\":\\"trapped\\",\\"trap\\":\\"%s\\"", trapName(trapCode)); }')
+                o.append("  childPending = 0; insts[ninsts++] = P[ni];")
+                if m.get("memory") and m["memory"].get("present", True) and not m["memory"].get("shared"):
+                    if memexp:
+                        o.append("  memOf[ni] = nmems; mems[nmems++] = %s_%s(P[ni]);" % (mod, mangle(memexp[0])))
+                    else:
+                        o.append("  mems[nmems++] = NULL;")
+                if m.get("table") and m["table"].get("present", True):
+                    o.append("  ntables++;")
+                if m.get("globals"):
+                    o.append("  ngcells += %d;" % len(m["globals"]))
+                o.append("  ni++;")
             elif op["op"] == "free":
                 # the instance is released; its memory (if it defined one) is no longer observable
                 o.append("  %sFreeInstance(P[%d]); if (memOf[%d] >= 0) mems[memOf[%d]] = NULL;" % (mod, op["inst"] - 1, op["inst"] - 1, op["inst"] - 1))
@@ -396,6 +424,9 @@ def actual(items, w2c2, workdir, cc="gcc", cflags=("-O1",), batch=24, w2c2_opts=
     problems = []
 
     gnuld = "gnu-ld" in (w2c2_opts or ())
+    # several output files per module (-f) or an external data segment blob: one directory per module, its objects combined
+    # into one relocatable object before the module's internal symbols are made local
+    subdirs = gnuld or "-f" in (w2c2_opts or ())
 
     def one(bn):
         its = batches[bn]
@@ -408,17 +439,16 @@ def actual(items, w2c2, workdir, cc="gcc", cflags=("-O1",), batch=24, w2c2_opts=
             wasm = os.path.join(d, it["modname"] + ".wasm")
             with open(wasm, "wb") as f:
                 f.write(it.get("wasm") or wasm_encode.encode(enc_module(it["module"])))
-            if gnuld:
-                # external data segments: the translator writes a file 'datasegments' next to the output, so every
-                # module gets its own directory; the blob is linked in with ld -r -b binary as the project documents
+            if subdirs:
+                # (the blob of external data segments is linked in with ld -r -b binary as the project documents)
                 sub = os.path.join(d, it["modname"] + ".dir")
                 os.makedirs(sub, exist_ok=True)
+                it["subdir"] = sub
                 rc, out, err = run([w2c2, *w2c2_opts, wasm, os.path.join(sub, it["modname"] + ".c")], timeout=120, cwd=sub, env=w2c2_env)
                 if rc == 0 and os.path.exists(os.path.join(sub, "datasegments")):
-                    rc, out, err = run(["ld", "-r", "-b", "binary", "datasegments", "-o", os.path.join(d, it["modname"] + "-ds.o")], timeout=60, cwd=sub)
-                for f_ in os.listdir(sub):
-                    if f_.endswith((".c", ".h")):
-                        shutil.move(os.path.join(sub, f_), os.path.join(d, f_))
+                    rc, out, err = run(["ld", "-r", "-b", "binary", "datasegments", "-o", "datasegments.o"], timeout=60, cwd=sub)
+                if rc == 0:
+                    shutil.copy(os.path.join(sub, it["modname"] + ".h"), os.path.join(d, it["modname"] + ".h"))
             else:
                 rc, out, err = run([w2c2, *(w2c2_opts or ("-m",)), wasm, os.path.join(d, it["modname"] + ".c")], timeout=120, cwd=d, env=w2c2_env)
             if rc != 0:
@@ -437,15 +467,27 @@ def actual(items, w2c2, workdir, cc="gcc", cflags=("-O1",), batch=24, w2c2_opts=
         rc, out, err = run([cc, "-O0", "-w", *[f for f in cflags if f.startswith(("-fsanitize", "-std", "-m"))], *inc,
                             "-c", "harness.c", "-o", "harness.o"], timeout=600, cwd=d)
         objs = []
+        for it in (good if subdirs else []):
+            if rc != 0:
+                break
+            sub, parts = it["subdir"], []
+            for src in sorted(f_ for f_ in os.listdir(sub) if f_.endswith(".c")):
+                if rc == 0:
+                    rc, out, err = run([cc, *cflags, "-w", *inc, "-c", src, "-o", src[:-2] + ".o"], timeout=600, cwd=sub)
+                    parts.append(src[:-2] + ".o")
+            if rc == 0 and os.path.exists(os.path.join(sub, "datasegments.o")):
+                parts.append("datasegments.o")
+            ob = os.path.join(d, it["modname"] + "-all.o")
+            if rc == 0:
+                rc, out, err = run(["ld", "-r", *parts, "-o", ob], timeout=60, cwd=sub)
+            if rc == 0 and localize:
+                rc, out, err = run(["objcopy", "-w", "-G", it["modname"] + "*", ob], timeout=60, cwd=d)
+            objs.append(ob)
         for src in srcs:
             if rc != 0:
                 break
             ob = src[:-2] + ".o"
             rc, out, err = run([cc, *cflags, "-w", *inc, "-c", src, "-o", ob], timeout=600, cwd=d)
-            dso = src[:-2] + "-ds.o"
-            if rc == 0 and gnuld and os.path.exists(os.path.join(d, dso)):
-                rc, out, err = run(["ld", "-r", ob, dso, "-o", src[:-2] + "-all.o"], timeout=60, cwd=d)
-                ob = src[:-2] + "-all.o"
             if rc == 0 and localize:
                 # keep only the module's public (prefixed) symbols global, so that several translated
                 # modules can live in one test program whatever their internal names are
